@@ -208,6 +208,7 @@ func (h *node) RequestRebroadcast(instant gpbft.Instant) error {
 func (h *node) ReceiveDecision(_ context.Context, d *gpbft.Justification) (time.Time, error) {
 	h.decided = d
 	h.done = true
+	h.decRound = h.p.Progress().Round
 	h.effects = append(h.effects, "D,"+h.n.justStr(d))
 	return time.Unix(0, math.MaxInt64/4), nil
 }
@@ -736,6 +737,11 @@ func runOnce(out *vh.Out, rng *vh.Rng, runNo int, mode string) {
 	if vh.Thorough() {
 		maxEvents = 20000
 	}
+	if mode != "byz" {
+		maxEvents *= 20 // liveness runs are only cut by the time deadline or the round bound
+	}
+	capped := 1
+	gstRound := int64(-1)
 	deadline := int64(time.Duration(4000) * delta)
 	nextByz := int64(0)
 	for steps := 0; steps < maxEvents; steps++ {
@@ -760,6 +766,14 @@ func runOnce(out *vh.Out, rng *vh.Rng, runNo int, mode string) {
 			continue
 		}
 		if an == nil && n.q.Len() == 0 {
+			capped = 0
+			break
+		}
+		if gstRound < 0 && n.now >= n.gst {
+			gstRound = int64(n.maxRound)
+		}
+		if gstRound >= 0 && int64(n.maxRound) > gstRound+45 {
+			capped = 0 // ran past the round bound: report as is
 			break
 		}
 		if an != nil && an.alarm <= evAt {
@@ -783,6 +797,7 @@ func runOnce(out *vh.Out, rng *vh.Rng, runNo int, mode string) {
 			n.deliver(n.nodes[e.to], e.msg)
 		}
 		if n.now > deadline {
+			capped = 0
 			break
 		}
 		allDone := true
@@ -792,6 +807,7 @@ func runOnce(out *vh.Out, rng *vh.Rng, runNo int, mode string) {
 			}
 		}
 		if allDone {
+			capped = 0
 			break
 		}
 	}
@@ -839,7 +855,13 @@ func runOnce(out *vh.Out, rng *vh.Rng, runNo int, mode string) {
 		}
 		out.Line("cert %d agg=%v %s", nd.id, verr == nil, res)
 	}
-	out.Line("end %d now=%d gst=%d maxround=%d delta=%d", runNo, n.now, n.gst, n.maxRound, int64(delta))
+	var decRound uint64
+	for _, nd := range n.nodes {
+		if !nd.faulty && nd.decRound > decRound {
+			decRound = nd.decRound
+		}
+	}
+	out.Line("end %d now=%d gst=%d maxround=%d delta=%d capped=%d gstround=%d decround=%d", runNo, n.now, n.gst, n.maxRound, int64(delta), capped, gstRound, decRound)
 }
 
 func main() {
